@@ -95,3 +95,195 @@ def check_ops(prop, tier, seed):
                    "operators run through compiled programs (`.l OP .r`), so Op::resolve is on the path"]
     mine = [v for v in agg["viols"] if v["prop"] == prop]
     return verdict(prop, tier, seed, "exploration", coverage, mine, assumptions, t0, replay_writer)
+
+
+CALLS_GEN_CFG = "SPECIFICATION Spec\nINVARIANT Emit\nCHECK_DEADLOCK FALSE\n"
+_calls_cache = {}
+
+
+def call_matrix(wd, tier, seed):
+    """sigtable from the real code -> TLC call matrix -> flat list of worker jobs."""
+    sig = os.path.join(wd, "sigtable.json")
+    run([VH, "sigtable", "--out", sig], cwd=wd, timeout=300)
+    out = tlc("GenCalls.tla", CALLS_GEN_CFG, wd, workers=min(8, NCPU), env={"SIGTABLE": sig}, name="GenCalls", timeout=1800)
+    blocks = printed(out, "CALLS")
+    if not blocks:
+        raise ToolError("GenCalls produced nothing:\n" + out[-2000:])
+    st, tr = tlc_stats(out)
+    jobs = []
+    for b in sorted(blocks, key=lambda b: b["f"]):
+        for args in b["calls"]:
+            jobs.append({"worker": "call", "f": b["f"], "ret": b["ret"], "args": args})
+    jobs.sort(key=lambda j: json.dumps(j, sort_keys=True))
+    return jobs, len(blocks), st, tr
+
+
+def check_calls(prop, tier, seed):
+    t0 = time.time()
+    wd = workdir(f"{prop}_{tier}")
+    build_harness()
+    jobs, nfn, gst, gtr = call_matrix(wd, tier, seed)
+    total = len(jobs)
+    rnd = random.Random(seed)
+    rnd.shuffle(jobs)          # spread slow functions over the shards (the whole matrix runs in both tiers)
+    log(f"[{prop}] {nfn} functions, {total} call tuples generated, running {len(jobs)} ({time.time()-t0:.0f}s)")
+    cpath = os.path.join(wd, "cases.ndjson")
+    with open(cpath, "w") as f:
+        for c in jobs:
+            f.write(json.dumps(c) + "\n")
+    deadline = 10000
+    run([VH, "calls", "--cases", cpath, "--out", os.path.join(wd, "tr"), "--shards", str(NCPU), "--deadline-ms", str(deadline)], cwd=wd, timeout=7200)
+    traces = [os.path.join(wd, f"tr.{i}.ndjson") for i in range(NCPU)]
+    log(f"[{prop}] calls executed ({time.time()-t0:.0f}s)")
+    agg = aggregate(validate(traces, wd, spec="TraceCalls.tla", cfg=TRACE_CFG))
+    cnt = agg["cnt"]
+    write_json(os.path.join(wd, "findings.json"), {"viols": agg["viols"][:2000]})
+    slow = 0
+    fns_seen = set()
+    for t in traces:
+        with open(t) as f:
+            for l in f:
+                j = json.loads(l)
+                fns_seen.add(j["f"])
+                if j.get("ms", 0) > 1000:
+                    slow += 1
+
+    def replay_writer(v):
+        with open(v["_file"]) as f:
+            line = f.readlines()[v["line"] - 1]
+        return {"engine": "C/calls", "record": json.loads(line)}
+
+    nontriv = {"C03": cnt.get("k1_checked", 0) + cnt.get("k2_checked", 0), "C04": cnt.get("calls", 0) - cnt.get("rejected", 0),
+               "C05": cnt.get("calls", 0) - cnt.get("rejected", 0)}[prop]
+    coverage = {
+        "evaluations": cnt.get("calls", 0), "distinct_nontrivial": nontriv,
+        "rule": "call tuples generated by TLC (GenCalls.tla) from the signature table exported from the real stdlib: per function the base call "
+                "and, for every parameter, every candidate of every value kind (valid or not; edge integers MIN/MAX, signed zero, infinities, "
+                "empty containers, hostile strings; enum variants + an undeclared one) as literal and as runtime-typed argument - the whole matrix "
+                "in both tiers. Each call runs in a killable worker process (10 s deadline, 6 GB address space). "
+                "non-trivial = the compiler accepted the call (so it really ran)",
+        "samples": [{"f": j["f"], "args": [{"kw": a["kw"], "lit": a["lit"], "v": a["v"]} for a in j["args"]]} for j in jobs[:3]],
+        "states": gst + agg["states"], "transitions": gtr + agg["transitions"], "traces_validated_against_impl": cnt.get("calls", 0),
+        "functions": len(fns_seen), "call_tuples_generated": total, "calls_run": cnt.get("calls", 0),
+        "outcomes": {k: cnt.get(k, 0) for k in ("ok", "err", "rejected", "panic", "timeout", "died")},
+        "k1_checked": cnt.get("k1_checked", 0), "k2_checked": cnt.get("k2_checked", 0),
+        "calls_with_wrong_runtime_argument": cnt.get("wrong_runtime_arg", 0), "calls_slower_than_1s": slow,
+        "witnesses_for_other_properties": sorted({sig_of(v) for v in agg["viols"] if v["prop"] != prop}),
+    }
+    assumptions = ["declared type = the compiler's own record for the call expression (hook H2); return kinds = Function::return_kind()",
+                   "network functions (http_request, dns_lookup, reverse_dns) are not called; memory exhaustion is out of scope (workers run under a 6 GB limit)",
+                   "deadline 10 s per call for arguments of a few bytes: two orders of magnitude above the slowest legitimate call"]
+    mine = [v for v in agg["viols"] if v["prop"] == prop]
+    return verdict(prop, tier, seed, "exploration", coverage, mine, assumptions, t0, replay_writer)
+
+
+def corpus_sources(wd):
+    srcs = []
+    root = "/repo/lib/tests/tests"
+    for d, _, files in os.walk(root):
+        for fn in sorted(files):
+            if fn.endswith(".vrl"):
+                try:
+                    with open(os.path.join(d, fn), encoding="utf-8") as f:
+                        srcs.append(f.read())
+                except OSError:
+                    pass
+    ex = os.path.join(wd, "examples.ndjson")
+    run([VH, "examples", "--out", ex], cwd=wd, timeout=300)
+    with open(ex) as f:
+        for l in f:
+            srcs.append(json.loads(l)["src"])
+    return sorted(set(srcs))
+
+
+_TOK = None
+
+
+def split_tokens(src):
+    import re
+    return re.findall(r"\w+|\s+|[^\w\s]", src)
+
+
+def mutate(src, tokens, rnd):
+    ts = split_tokens(src)
+    if not ts:
+        return src
+    i = rnd.randrange(len(ts))
+    k = rnd.random()
+    if k < 0.25:
+        del ts[i]
+    elif k < 0.45:
+        ts.insert(i, ts[i])
+    elif k < 0.6 and i + 1 < len(ts):
+        ts[i], ts[i + 1] = ts[i + 1], ts[i]
+    elif k < 0.85:
+        ts[i] = rnd.choice(tokens)
+    else:
+        # multi-byte identifiers / field names / string contents
+        ts[i] = rnd.choice(["é", "ünï", "日本", "😀", ".é", ".\"ü b\"", "\"é😀\"", "é_1"])
+    return "".join(ts)
+
+
+def check_diag(prop, tier, seed):
+    """C33 (diagnostics well-formed and renderable) and the source-text part of C04."""
+    t0 = time.time()
+    wd = workdir(f"{prop}_{tier}")
+    build_harness()
+    u, gst, gtr = universes("GenTokens.tla", wd, ["TOKENS"])
+    tokens = u["TOKENS"]
+    rnd = random.Random(seed)
+    srcs = [""]
+    seqs = [[t] for t in tokens] + [[a, b] for a in tokens for b in tokens]
+    n3 = 15000 if tier == "quick" else 120000
+    nlong = 8000 if tier == "quick" else 80000
+    for _ in range(n3):
+        seqs.append([rnd.choice(tokens) for _ in range(3)])
+    for _ in range(nlong):
+        seqs.append([rnd.choice(tokens) for _ in range(rnd.randint(4, 7))])
+    for s in seqs:
+        srcs.append(" ".join(s))
+        if rnd.random() < 0.3:
+            srcs.append("".join(s))
+    corpus = corpus_sources(wd)
+    srcs += corpus
+    nmut = 12000 if tier == "quick" else 150000
+    for _ in range(nmut):
+        m = mutate(rnd.choice(corpus), tokens, rnd)
+        if rnd.random() < 0.3:
+            m = mutate(m, tokens, rnd)
+        srcs.append(m)
+    srcs = [s for s in dict.fromkeys(srcs) if len(s) < 6000]
+    jobs = [{"worker": "diag", "f": "diag", "id": i + 1, "src": s, "args": [], "ret": []} for i, s in enumerate(srcs)]
+    log(f"[{prop}] {len(jobs)} source texts ({len(corpus)} corpus programs) ({time.time()-t0:.0f}s)")
+    cpath = os.path.join(wd, "cases.ndjson")
+    with open(cpath, "w") as f:
+        for c in jobs:
+            f.write(json.dumps(c) + "\n")
+    run([VH, "calls", "--cases", cpath, "--out", os.path.join(wd, "tr"), "--shards", str(NCPU), "--deadline-ms", "10000"], cwd=wd, timeout=7200)
+    traces = [os.path.join(wd, f"tr.{i}.ndjson") for i in range(NCPU)]
+    log(f"[{prop}] compiled / rendered / run ({time.time()-t0:.0f}s)")
+    agg = aggregate(validate(traces, wd, spec="TraceDiag.tla", cfg=TRACE_CFG))
+    cnt = agg["cnt"]
+    write_json(os.path.join(wd, "findings.json"), {"viols": agg["viols"][:500]})
+
+    def replay_writer(v):
+        with open(v["_file"]) as f:
+            line = f.readlines()[v["line"] - 1]
+        return {"engine": "C/diag", "record": json.loads(line)}
+
+    coverage = {
+        "evaluations": cnt.get("sources", 0), "distinct_nontrivial": cnt.get("with_diagnostics", 0),
+        "rule": "source texts: every sequence of <= 2 tokens of the GenTokens.tla alphabet (one representative per lexer token class plus "
+                "multi-byte / escape-heavy variants), seeded sequences of 3-7 tokens (joined with and without spaces), the repository's 314 .vrl "
+                "test programs and all stdlib examples, and seeded single/double token mutations of those (delete, duplicate, swap, replace by a "
+                "token, replace by multi-byte identifiers/fields/strings). non-trivial = the compiler reported at least one diagnostic",
+        "samples": [srcs[70], srcs[4000], srcs[-1]],
+        "states": gst + agg["states"], "transitions": gtr + agg["transitions"], "traces_validated_against_impl": cnt.get("sources", 0),
+        "sources": cnt.get("sources", 0), "accepted_programs_also_run": cnt.get("accepted", 0),
+        "sources_with_diagnostics": cnt.get("with_diagnostics", 0), "labels_checked": cnt.get("labels", 0),
+        "witnesses_for_other_properties": sorted({sig_of(v) for v in agg["viols"] if v["prop"] != prop}),
+    }
+    assumptions = ["char-boundary tests use str::is_char_boundary on the real source; rendering uses Formatter (plain and coloured)",
+                   "sources longer than 6000 bytes are not generated; stack/memory exhaustion is out of scope"]
+    mine = [v for v in agg["viols"] if v["prop"] == prop]
+    return verdict(prop, tier, seed, "exploration", coverage, mine, assumptions, t0, replay_writer)
